@@ -16,7 +16,7 @@ import ast, sys, os, textwrap
 REPO = os.environ.get("VERIF_REPO", "/repo")
 OUTDIR = os.path.join(os.path.dirname(os.path.abspath(__file__)), "..", "coq", "theories")
 # generated file -> functions (one file per group of properties: bfs / dfs are tied to C02, C03; expand_to_target to C06)
-GROUPS = [("PySrcSd.v", ["expand_bfs", "expand_dfs"]), ("PySrcSdTarget.v", ["expand_to_target"])]
+GROUPS = [("PySrcSd.v", ["expand_bfs", "expand_dfs"]), ("PySrcSdTarget.v", ["expand_to_target"]), ("PySrcSdMin.v", ["expand_minimal_spaces"])]
 
 class Unsupported(Exception):
     pass
@@ -25,9 +25,11 @@ def fail(node, why):
     raise Unsupported(f"line {getattr(node, 'lineno', '?')}: {why}: {ast.dump(node)[:200]}")
 
 COQ_TY = {"nat": "nat", "optnat": "(option nat)", "bool": "bool", "natlist": "(list nat)", "optnatlist": "(option (list nat))",
-          "natset": "(list nat)", "space": "space", "optspace": "(option space)", "stack": "(list (nat * option (list nat)))"}
+          "natset": "(list nat)", "space": "space", "optspace": "(option space)", "stack": "(list (nat * option (list nat)))",
+          "spacelist": "(list space)", "pnobj": "unit", "unit": "unit"}
 DFLT = {"nat": "0", "optnat": "(@None nat)", "bool": "false", "natlist": "(@nil nat)", "optnatlist": "(@None (list nat))",
-        "natset": "(@nil nat)", "space": "(@nil (option bool))", "optspace": "(@None space)", "stack": "(@nil (nat * option (list nat)))"}
+        "natset": "(@nil nat)", "space": "(@nil (option bool))", "optspace": "(@None space)", "stack": "(@nil (nat * option (list nat)))",
+        "spacelist": "(@nil space)", "pnobj": "Datatypes.tt"}
 OPT_OF = {"nat": "optnat", "natlist": "optnatlist", "space": "optspace"}
 
 # function -> file, arguments (after sd), local types, fuel of each `while` in order of appearance
@@ -45,6 +47,13 @@ FUNCS = [
          locs={"root": "nat", "seen": "natset", "level_id": "nat", "current_level": "natlist", "next_level": "natlist",
                "node_space": "space", "successors": "natlist"},
          loopvars={"node": "nat", "s": "nat"}, fuels=["fuel"]),
+    dict(name="expand_minimal_spaces", path="biobalm/_sd_algorithms/expand_minimal_spaces.py", tape=True,
+         args=[("node_id", "optnat"), ("size_limit", "optnat"), ("skip_remaining", "bool")], defaults={"size_limit": None, "skip_remaining": False},
+         locs={"pn": "pnobj", "node_space": "space", "all_minimal_traps": "spacelist", "minimal_traps": "spacelist", "seen": "natset",
+               "stack": "stack", "node": "nat", "successors": "optnatlist", "skipped": "nat", "s": "nat"},
+         loopvars={}, fuels=["fuel", "(S (match successors with Some l_ => length l_ | None => 0 end))"],
+         nested=[dict(name="make_skip_node", args=[("node_id", "nat"), ("all_minimal_traps", "spacelist")], ret="unit",
+                      locs={"skip_edges": "nat", "m_id": "nat"}, loopvars={"m_trap": "space"}, alias=["node", "m_data"], fuels=[])]),
 ]
 
 class Fn:
@@ -54,6 +63,8 @@ class Fn:
         self.locs = spec["locs"]
         self.state = []
         self.fuels = list(spec["fuels"])
+        self.alias = {}; self.alias_n = 0; self.pn_of = {}; self.nested = {}
+        self.ret = spec.get("ret", "bool")
 
     # ---------- expressions: (term, may_raise, type); with may_raise the term has type option T ----------
     def lift(self, t, r):
@@ -91,7 +102,10 @@ class Fn:
         return isinstance(e, ast.Name) and e.id == "sd"
 
     def node_data_field(self, e):
-        """sd.node_data(X)["field"]"""
+        """sd.node_data(X)["field"]  or  alias["field"]"""
+        if isinstance(e, ast.Subscript) and isinstance(e.slice, ast.Constant) and isinstance(e.slice.value, str) \
+                and isinstance(e.value, ast.Name) and e.value.id in self.alias:
+            return e.slice.value, ast.Name(id=self.alias[e.value.id], ctx=ast.Load())
         if isinstance(e, ast.Subscript) and isinstance(e.slice, ast.Constant) and isinstance(e.slice.value, str) \
                 and isinstance(e.value, ast.Call) and isinstance(e.value.func, ast.Attribute) and e.value.func.attr == "node_data" \
                 and self.is_sd(e.value.func.value) and len(e.value.args) == 1 and not e.value.keywords:
@@ -100,6 +114,7 @@ class Fn:
 
     def expr(self, e, want=None):
         if isinstance(e, ast.Name):
+            if e.id.endswith("_") and e.id in self.alias.values(): return (e.id, False, "nat")       # captured id of an alias
             if e.id not in self.env: fail(e, "unknown name")
             return (e.id, False, self.env[e.id])
         if isinstance(e, ast.Constant):
@@ -191,7 +206,7 @@ class Fn:
             if isinstance(f, ast.Name) and f.id == "len" and len(e.args) == 1 and not e.keywords:
                 if self.is_sd(e.args[0]): return ("(size sd_)", False, "nat")
                 a = self.expr(e.args[0])
-                if a[2] == "stack": return self.map1(a, lambda x: f"(length {x})", "nat")
+                if a[2] in ("stack", "spacelist"): return self.map1(a, lambda x: f"(length {x})", "nat")
                 return self.map1(self.as_list(a, e), lambda x: f"(length {x})", "nat")
             if isinstance(f, ast.Name) and f.id == "set" and not e.keywords:
                 if not e.args: return ("(@nil nat)", False, "natset")
@@ -214,6 +229,49 @@ class Fn:
                 if a[2] != "space" or b[2] != "space": fail(e, "space arguments")
                 if f.id == "intersect": return self.map2(a, b, lambda x, y: f"(intersect {x} {y})", "optspace")
                 return self.map2(a, b, lambda x, y: f"(subspace {x} {y})", "bool")
+            if isinstance(f, ast.Attribute) and self.is_sd(f.value) and f.attr == "node_is_minimal" and len(e.args) == 1 and not e.keywords:
+                a = self.expr(e.args[0])
+                if a[2] != "nat": fail(e, "node id type")
+                return self.map1(a, lambda x: f"(is_minimal sd_ {x})", "bool")
+            if isinstance(f, ast.Attribute) and self.is_sd(f.value) and f.attr == "node_percolated_petri_net" and len(e.args) == 1 \
+                    and len(e.keywords) == 1 and e.keywords[0].arg == "compute" and isinstance(e.keywords[0].value, ast.Constant) and e.keywords[0].value.value is True:
+                a = self.expr(e.args[0])
+                if a[2] != "nat" or a[1]: fail(e, "node id")
+                self.last_pn_node = a[0]
+                return ("Datatypes.tt", False, "pnobj")                      # the caching side effect is not modelled (PyLibSd2.v)
+            if isinstance(f, ast.Name) and f.id == "trappist" and not e.args:
+                kw = {k.arg: k.value for k in e.keywords}
+                if not self.spec.get("tape") or set(kw) != {"network", "problem", "ensure_subspace"} or not (isinstance(kw["problem"], ast.Constant) and kw["problem"].value == "min"):
+                    fail(e, "trappist call")
+                net, sp = kw["network"], self.expr(kw["ensure_subspace"])
+                if not (isinstance(net, ast.Name) and self.env.get(net.id) == "pnobj" and net.id in self.pn_of) or sp[2] != "space" or sp[1]: fail(e, "trappist arguments")
+                # minimal trap spaces of the node's percolated net inside its space, in the solver's order = the tape
+                return (f"(trappist_min_sd N (n_space (get sd_ {self.pn_of[net.id]})) {sp[0]} tape)", False, "spacelist")
+            if isinstance(f, ast.Attribute) and f.attr == "copy" and isinstance(f.value, ast.Name) and f.value.id == "copy" and len(e.args) == 1 and not e.keywords:
+                a = self.expr(e.args[0])
+                if a[2] != "spacelist": fail(e, "copy.copy")
+                return a                                                       # immutable values: a copy is the value
+        if isinstance(e, ast.ListComp) and len(e.generators) == 1 and isinstance(e.generators[0].target, ast.Name) and not e.generators[0].is_async:
+            g = e.generators[0]
+            it = self.expr(g.iter)
+            if it[2] != "spacelist" or it[1] or len(g.ifs) > 1: fail(e, "comprehension")
+            v = g.target.id
+            saved = self.env.get(v)
+            self.env[v] = "space"
+            try:
+                elt = self.expr(e.elt)
+                cond = self.expr(g.ifs[0]) if g.ifs else None
+            finally:
+                if saved is None: del self.env[v]
+                else: self.env[v] = saved
+            if elt[2] != "space" or elt[1] or (cond is not None and (cond[2] != "bool" or cond[1])): fail(e, "comprehension body")
+            src = f"(filter (fun {v} => {cond[0]}) {it[0]})" if cond is not None else it[0]
+            if isinstance(e.elt, ast.Name) and e.elt.id == v: return (src, False, "spacelist")
+            return (f"(map (fun {v} => {elt[0]}) {src})", False, "spacelist")
+        if isinstance(e, ast.BinOp) and isinstance(e.op, ast.BitOr):
+            a, b = self.expr(e.left), self.expr(e.right)
+            if a[2] != "space" or b[2] != "space": fail(e, "| on non-dict values")
+            return self.map2(a, b, lambda x, y: f"(space_union {x} {y})", "space")
         fail(e, "unsupported expression")
 
     def coerce(self, te, ty, node):
@@ -235,7 +293,11 @@ class Fn:
     def st_pat(self):
         return "_" if not self.state else ("'(" + ", ".join(self.state) + ")" if len(self.state) > 1 else self.state[0])
     def flow_ty(self):
-        return f"sflow bool {self.st_ty()}"
+        return f"sflow {COQ_TY[self.ret]} {self.st_ty()}"
+    def is_debug_block(self, s):
+        return isinstance(s, ast.If) and not s.orelse and isinstance(s.test, ast.Subscript) and isinstance(s.test.value, ast.Attribute) \
+            and s.test.value.attr == "config" and self.is_sd(s.test.value.value) and isinstance(s.test.slice, ast.Constant) and s.test.slice.value == "debug" \
+            and all(isinstance(b, ast.Expr) and isinstance(b.value, ast.Call) and isinstance(b.value.func, ast.Name) and b.value.func.id == "print" for b in s.body)
     def nxt(self):
         return f"SNext sd_ {self.st_tuple()}"
 
@@ -257,10 +319,27 @@ class Fn:
         s, rest = stmts[0], stmts[1:]
         if isinstance(s, ast.Expr) and isinstance(s.value, ast.Constant) and isinstance(s.value.value, str):
             return self.block(rest)                                   # docstring
+        if self.is_debug_block(s):
+            return self.block(rest)                                   # if sd.config["debug"]: print(...)
+        if isinstance(s, ast.FunctionDef):
+            if s.name not in self.nested: fail(s, "nested function that was not translated")
+            return self.block(rest)                                   # translated separately (see translate())
+        if isinstance(s, ast.Break):
+            if "brk_" not in self.state: fail(s, "break outside a loop prepared for it")
+            return f"(let brk_ := true in SCont sd_ {self.st_tuple()})"
+        if isinstance(s, ast.Return) and s.value is None:
+            if self.ret != "unit": fail(s, "bare return")
+            return "(SRet sd_ Datatypes.tt)"
+        if isinstance(s, ast.Assert):
+            t, r, ty = self.expr(s.test)
+            if ty != "bool": fail(s, "assert type")
+            k = self.block(rest)
+            if r: return f"(match {t} with Some c_ => if c_ then {k} else SRaise sd_ (RRaised ErrAssert) | None => SBad sd_ end)"
+            return f"(if {t} then {k} else SRaise sd_ (RRaised ErrAssert))"
         if isinstance(s, ast.Return):
             if s.value is None: fail(s, "bare return")
             t, r, ty = self.expr(s.value)
-            if ty != "bool": fail(s, "return type")
+            if ty != self.ret: fail(s, "return type")
             return f"(match {t} with Some r_ => SRet sd_ r_ | None => SBad sd_ end)" if r else f"(SRet sd_ {t})"
         if isinstance(s, ast.Continue):
             return f"(SCont sd_ {self.st_tuple()})"
@@ -293,8 +372,31 @@ class Fn:
                 if self.env.get(a) != "nat" or self.env.get(b) != "optnatlist": fail(s, "tuple assignment types")
                 for n in (a, b, st): self.need_state(n, s)
                 return f"(match stack_pop {st} with Some (({a}, {b}), {st}) => {self.block(rest)} | None => SBad sd_ end)"
+            # alias["field"] = value
+            if isinstance(tgt, ast.Subscript) and isinstance(tgt.value, ast.Name) and tgt.value.id in self.alias \
+                    and isinstance(tgt.slice, ast.Constant) and isinstance(tgt.slice.value, str):
+                nid, f = self.alias[tgt.value.id], tgt.slice.value
+                isc = lambda v, c: isinstance(v, ast.Constant) and v.value is c
+                if f in ("attractor_seeds", "attractor_candidates", "attractor_sets") and isc(val, None):
+                    setter = {"attractor_seeds": "set_seeds", "attractor_candidates": "set_cands", "attractor_sets": "set_sets"}[f]
+                    return f"(let sd_ := upd_node sd_ {nid} (fun y_ => {setter} y_ None) in {self.block(rest)})"
+                if f in ("expanded", "skipped") and (isc(val, True) or isc(val, False)):
+                    setter = {"expanded": "set_exp", "skipped": "set_skip"}[f]
+                    return f"(let sd_ := upd_node sd_ {nid} (fun y_ => {setter} y_ {'true' if val.value else 'false'}) in {self.block(rest)})"
+                fail(s, "node field assignment")
             if not isinstance(tgt, ast.Name): fail(s, "assignment target")
             name = tgt.id
+            # node = sd.node_data(i): an alias of node i, captured now
+            if name in self.spec.get("alias", []):
+                ok = isinstance(val, ast.Call) and isinstance(val.func, ast.Attribute) and val.func.attr == "node_data" and self.is_sd(val.func.value) \
+                    and len(val.args) == 1 and not val.keywords
+                if not ok or name in self.alias: fail(s, "alias")
+                a = self.expr(val.args[0])
+                if a[2] != "nat" or a[1]: fail(s, "alias id")
+                self.alias_n += 1
+                v = f"{name}_id{self.alias_n}_"
+                self.alias[name] = v
+                return f"(let {v} := {a[0]} in {self.block(rest)})"
             if name not in self.locs: fail(s, "assignment to an undeclared local")
             self.need_state(name, s)
             lty = self.locs[name]
@@ -302,6 +404,11 @@ class Fn:
                 if not isinstance(s.op, ast.Add) or lty != "nat": fail(s, "augmented assignment")
                 t, r, _ = self.as_nat(self.expr(val), s)
                 return self.guard(f"(omap (fun b_ => {name} + b_) {t})" if r else f"({name} + {t})", r, name, self.block(rest))
+            # X = sd._ensure_node(p, m)
+            if self.is_call(val, "_ensure_node") and self.is_sd(val.func.value) and len(val.args) == 2 and not val.keywords:
+                a, b = self.expr(val.args[0]), self.expr(val.args[1])
+                if a[2] != "nat" or b[2] != "space" or a[1] or b[1] or lty != "nat": fail(s, "_ensure_node arguments")
+                return f"(let '(d1_, c_) := ensure_node N sd_ (Some {a[0]}) {b[0]} in let sd_ := d1_ in let {name} := c_ in {self.block(rest)})"
             # X = sd.node_successors(node, compute=True)
             if self.is_call(val, "node_successors") and self.is_sd(val.func.value):
                 kw = val.keywords
@@ -321,12 +428,22 @@ class Fn:
                 l = self.as_list(self.expr(val.func.value), s)
                 store, _ = self.coerce(("l_", False, "natlist"), self.env[lst], s)
                 return f"(match obind {self.lift(l[0], l[1])} l_pop with Some ({name}, l_) => let {lst} := {store} in {self.block(rest)} | None => SBad sd_ end)"
-            t, r = self.coerce(self.expr(val, want=lty), lty, s)
+            te = self.expr(val, want=lty)
+            if lty == "pnobj":
+                if te[2] != "pnobj": fail(s, "percolated net local")
+                self.pn_of[name] = self.last_pn_node
+            t, r = self.coerce(te, lty, s)
             return self.guard(t, r, name, self.block(rest))
         if isinstance(s, ast.Expr) and isinstance(s.value, ast.Call) and isinstance(s.value.func, ast.Attribute) \
                 and isinstance(s.value.func.value, ast.Name) and not s.value.keywords:
             c = s.value
             obj, meth = c.func.value.id, c.func.attr
+            if meth == "remove" and self.env.get(obj) == "spacelist" and len(c.args) == 1:
+                self.need_state(obj, s)
+                a = self.expr(c.args[0])
+                if a[2] != "space": fail(s, "remove argument")
+                k = f"(match remove_space x_ {obj} with Some {obj} => {self.block(rest)} | None => SRaise sd_ (RRaised ErrAssert) end)"   # ValueError
+                return self.guard(a[0], a[1], "x_", k)
             oty = self.env.get(obj)
             if obj not in self.locs: fail(s, "method call on a non-local")
             self.need_state(obj, s)
@@ -343,22 +460,35 @@ class Fn:
                 store, _ = self.coerce(("l_", False, "natlist"), oty, s)
                 return f"(match obind {self.lift(l[0], l[1])} l_pop with Some (_, l_) => let {obj} := {store} in {self.block(rest)} | None => SBad sd_ end)"
             fail(s, "method call")
+        if isinstance(s, ast.Expr) and isinstance(s.value, ast.Call) and isinstance(s.value.func, ast.Name) and s.value.func.id in self.nested:
+            c = s.value
+            sub = self.nested[c.func.id]
+            if c.keywords or len(c.args) != len(sub["args"]) + 1 or not self.is_sd(c.args[0]): fail(s, "nested call")
+            args = []
+            for a, (_, ty) in zip(c.args[1:], sub["args"]):
+                t = self.expr(a)
+                if t[1] or t[2] != ty: fail(s, "nested call argument")
+                args.append(t[0])
+            return f"(s_call (py_{self.spec['name']}__{sub['name']} N cfg sd_ {' '.join(args)}) (fun sd_ => {self.block(rest)}))"
         if isinstance(s, ast.If):
             c, r, ty = self.expr(s.test)
             if ty != "bool": fail(s, "condition type")
-            env0 = dict(self.env)
+            env0, al0, pn0 = dict(self.env), dict(self.alias), dict(self.pn_of)
             b1 = self.block(s.body)
-            self.env = dict(env0)
+            self.env, self.alias, self.pn_of = dict(env0), dict(al0), dict(pn0)
             b2 = self.block(s.orelse)
-            self.env = env0
+            self.env, self.alias, self.pn_of = env0, al0, pn0
             head = f"(match {c} with Some c_ => if c_ then {b1} else {b2} | None => SBad sd_ end)" if r else f"(if {c} then {b1} else {b2})"
             return self.seq(head, rest)
         if isinstance(s, ast.For):
             if s.orelse: fail(s, "for-else")
             if not isinstance(s.target, ast.Name) or s.target.id not in self.spec["loopvars"]: fail(s, "loop variable")
             it = self.expr(s.iter)
-            if it[2] != "natlist" or it[1]: fail(s, "loop iterable")
+            want = {"nat": "natlist", "space": "spacelist"}[self.spec["loopvars"][s.target.id]]
+            if it[2] != want or it[1]: fail(s, "loop iterable")
+            al0, pn0 = dict(self.alias), dict(self.pn_of)
             body = self.block(s.body)
+            self.alias, self.pn_of = al0, pn0
             head = (f"(s_for {it[0]} (fun {s.target.id} sd_ (st_ : {self.st_ty()}) => let {self.st_pat()} := st_ in "
                     f"({body} : {self.flow_ty()})) sd_ {self.st_tuple()})")
             return self.seq(head, rest)
@@ -368,7 +498,17 @@ class Fn:
             fuel = self.fuels.pop(0)
             c, r, ty = self.expr(s.test)
             if ty != "bool": fail(s, "condition type")
+            has_break = any(isinstance(n, ast.Break) for n in walk_no_loops(s.body))
+            al0, pn0 = dict(self.alias), dict(self.pn_of)
             body = self.block(s.body)
+            self.alias, self.pn_of = al0, pn0
+            if has_break:
+                # `break` sets the hidden local brk_ and ends the iteration; the loop test is  (not brk_) and <test>
+                self.need_state("brk_", s)
+                head = (f"(let brk_ := false in s_while {fuel} (fun sd_ (st_ : {self.st_ty()}) => let {self.st_pat()} := st_ in "
+                        f"if brk_ then Some false else {self.lift(c, r)}) "
+                        f"(fun sd_ (st_ : {self.st_ty()}) => let {self.st_pat()} := st_ in ({body} : {self.flow_ty()})) sd_ {self.st_tuple()})")
+                return self.seq(head, rest)
             head = (f"(s_while {fuel} (fun sd_ (st_ : {self.st_ty()}) => let {self.st_pat()} := st_ in {self.lift(c, r)}) "
                     f"(fun sd_ (st_ : {self.st_ty()}) => let {self.st_pat()} := st_ in ({body} : {self.flow_ty()})) sd_ {self.st_tuple()})")
             return self.seq(head, rest)
@@ -379,11 +519,25 @@ class Fn:
             return head
         return f"(match {head} with SNext sd_ st_ => let {self.st_pat()} := st_ in {self.block(rest)} | other_ => other_ end)"
 
+def walk_no_loops(stmts):
+    """all statements of a loop body that belong to this loop (nested loops and functions are not entered)"""
+    for st in stmts:
+        yield st
+        if isinstance(st, (ast.While, ast.For, ast.FunctionDef)):
+            continue
+        for field in ("body", "orelse"):
+            yield from walk_no_loops(getattr(st, field, []) or [])
+
 def assigned_locals(fn_node, locs):
     out = []
     def add(name):
         if name in locs and name not in out: out.append(name)
-    for n in ast.walk(fn_node):
+    def walk(n, top=True):
+        yield n
+        for ch in ast.iter_child_nodes(n):
+            if isinstance(ch, ast.FunctionDef): continue          # nested functions have their own locals
+            yield from walk(ch, False)
+    for n in walk(fn_node):
         tgts = []
         if isinstance(n, ast.Assign) and len(n.targets) == 1: tgts = [n.targets[0]]
         elif isinstance(n, (ast.AnnAssign, ast.AugAssign)): tgts = [n.target]
@@ -412,12 +566,55 @@ def pretty(t):
     out.append(line)
     return "\n".join(out)
 
+def translate_one(spec, node, cname, outer=None):
+    """one function definition -> list of text parts.  outer = the Fn of the enclosing function for a nested def"""
+    fn = Fn(spec)
+    locs = dict(spec["locs"])
+    has_break = any(isinstance(n, ast.Break) for n in ast.walk(node))
+    fn.state = assigned_locals(node, locs)
+    if has_break:
+        fn.locs = locs = dict(locs, brk_="bool"); fn.env["brk_"] = "bool"; fn.state.append("brk_")
+    parts = []
+    for sub in spec.get("nested", []):
+        subnodes = [n for n in node.body if isinstance(n, ast.FunctionDef) and n.name == sub["name"]]
+        if len(subnodes) != 1: raise Unsupported(f"{spec['name']}: nested function {sub['name']} not found exactly once")
+        sn = subnodes[0]
+        a = sn.args
+        if a.vararg or a.kwarg or a.kwonlyargs or a.posonlyargs or a.defaults or [x.arg for x in a.args] != ["sd"] + [x for x, _ in sub["args"]]:
+            raise Unsupported(f"{sub['name']}: signature changed")
+        # a nested function must not read variables of the enclosing function (everything comes in through its parameters)
+        bound = {x.arg for x in a.args} | set(sub["locs"]) | set(sub["loopvars"]) | set(sub.get("alias", []))
+        for n in ast.walk(sn):
+            if isinstance(n, ast.Name) and isinstance(n.ctx, ast.Load) and n.id not in bound and n.id in spec["locs"]:
+                raise Unsupported(f"{sub['name']}: reads {n.id} of the enclosing function")
+        subspec = dict(sub, name=spec["name"] + "__" + sub["name"], path=spec["path"])
+        parts += translate_one(subspec, sn, "py_" + subspec["name"])
+        fn.nested[sub["name"]] = sub
+    body = fn.block(node.body)
+    if fn.fuels: raise Unsupported(f"{spec['name']}: fewer while loops than declared")
+    sig = " ".join(f"({x} : {COQ_TY[t]})" for x, t in spec["args"])
+    if spec.get("tape"): sig = "(tape : list space) " + sig
+    init = "".join(f"let {v} := {DFLT[locs[v]]} in " for v in fn.state)
+    is_sub = "__" in spec["name"]
+    parts.append(f"(* {spec['path']}: def {spec['name'].replace('__', ' / ')}(sd, {', '.join(x for x, _ in spec['args'])}) *)")
+    if is_sub:
+        parts.append(f"Definition {cname} (N : net) (cfg : config) (sd_ : sd) {sig} : sflow {COQ_TY[fn.ret]} unit :=")
+        parts.append(f"  {init}")
+        parts.append("  s_close\n" + textwrap.indent(pretty(f"({body} : {fn.flow_ty()})"), "    ") + ".")
+    else:
+        parts.append(f"Definition {cname} (fuel : nat) (N : net) (cfg : config) (sd_ : sd) {sig} : sd * result :=")
+        parts.append(f"  {init}")
+        parts.append("  s_finish\n" + textwrap.indent(pretty(f"({body} : {fn.flow_ty()})"), "    ") + ".")
+    parts.append("")
+    return parts
+
 def translate(fname, names):
+    ext = any(s_.get("tape") for s_ in FUNCS if s_["name"] in names)
     parts = [f"(* {fname} -- GENERATED by tools/py2coq_sd.py from the current sources of /repo/biobalm/_sd_algorithms; do not edit.",
-             "   Each definition is the translation of the Python function of the same name (embedding: PyLibSd.v).",
-             "   PySrcSdFacts.v / PySrcSdTargetFacts.v prove them equal to the model's strategy functions of Diagram.v. *)",
+             "   Each definition is the translation of the Python function of the same name (embedding: PyLibSd.v" + (", PyLibSd2.v" if ext else "") + ").",
+             "   PySrcSdFacts.v / PySrcSdTargetFacts.v / PySrcSdMinFacts.v prove them equal to the model's strategy functions of Diagram.v. *)",
              "From Coq Require Import List Bool Arith.", "Import ListNotations.",
-             "From BB Require Import BN Diagram PyLib PyLibSd.", ""]
+             "From BB Require Import BN Diagram PyLib PyLibSd" + (" PyLibCore PyLibSd2" if ext else "") + ".", ""]
     for spec in FUNCS:
         name, path = spec["name"], spec["path"]
         if name not in names: continue
@@ -429,20 +626,15 @@ def translate(fname, names):
         want_args = ["sd"] + [x for x, _ in spec["args"]]
         if a.vararg or a.kwarg or a.kwonlyargs or a.posonlyargs or [x.arg for x in a.args] != want_args:
             raise Unsupported(f"{name}: signature changed: {[x.arg for x in a.args]}")
-        for d in a.defaults:
-            if not (isinstance(d, ast.Constant) and d.value is None): raise Unsupported(f"{name}: default value other than None")
+        want_d = spec.get("defaults")
+        got = dict(zip([x.arg for x in a.args][len(a.args) - len(a.defaults):], a.defaults))
+        if want_d is None:
+            for d in a.defaults:
+                if not (isinstance(d, ast.Constant) and d.value is None): raise Unsupported(f"{name}: default value other than None")
+        elif set(got) != set(want_d) or any(not (isinstance(got[k], ast.Constant) and got[k].value is v) for k, v in want_d.items()):
+            raise Unsupported(f"{name}: default values changed")
         if node.decorator_list: raise Unsupported(f"{name}: decorators")
-        fn = Fn(spec)
-        fn.state = assigned_locals(node, spec["locs"])
-        body = fn.block(node.body)
-        if fn.fuels: raise Unsupported(f"{name}: fewer while loops than declared")
-        sig = " ".join(f"({x} : {COQ_TY[t]})" for x, t in spec["args"])
-        init = "".join(f"let {v} := {DFLT[spec['locs'][v]]} in " for v in fn.state)
-        parts.append(f"(* {path}: def {name}({', '.join(want_args)}) *)")
-        parts.append(f"Definition py_{name} (fuel : nat) (N : net) (cfg : config) (sd_ : sd) {sig} : sd * result :=")
-        parts.append(f"  {init}")
-        parts.append("  s_finish\n" + textwrap.indent(pretty(f"({body} : {fn.flow_ty()})"), "    ") + ".")
-        parts.append("")
+        parts += translate_one(spec, node, "py_" + name)
     return "\n".join(parts)
 
 def main(argv):
